@@ -37,7 +37,13 @@ enum WorkerEnd {
 
 fn run_worker(args: &[String], outer_timeout: Duration) -> WorkerEnd {
     let exe = std::env::current_exe().expect("current_exe");
-    let mut child = match Command::new(exe)
+    let mut cmd = Command::new(exe);
+    // once a death has been attributed to a case, later workers give up on a silent case sooner:
+    // the verdict is a violation already and every further hang costs a full stall period
+    if DEATHS_ATTRIBUTED.load(Ordering::SeqCst) > 0 && std::env::var("VERIF_STALL_S").is_err() {
+        cmd.env("VERIF_STALL_S", "5");
+    }
+    let mut child = match cmd
         .args(args)
         .stdin(Stdio::null())
         .stdout(Stdio::piped())
